@@ -84,7 +84,7 @@ Proof. rewrite rmean_eq. apply Rmult_le_pos.
     left. apply Rinv_0_lt_compat. apply lt_0_INR. lia. Qed.
 
 Theorem distribution_post g : observed g -> gstd R_ops key cs g <> 0 ->
-  let out := fst (normalize_distribution R_ops key G cs) in
+  let out := fst (normalize_distribution R_ops key key G cs) in
   gmean R_ops key out g = 0 /\ gstd R_ops key out g = 1.
 Proof. intros Hobs Hsd out. unfold out, normalize_distribution. cbn [fst]. fold mu sd. rewrite apply_stats_eq.
   assert (Hm : gmean R_ops key (imap norm_cell 0 cs) g = 0).
@@ -99,14 +99,14 @@ Proof. intros Hobs Hsd out. unfold out, normalize_distribution. cbn [fst]. fold 
   change (rsqrt (var * (/ s * / s)) = 1). replace (var * (/ s * / s)) with 1 by (rewrite <- Hs; field; exact Hsd). apply sqrt_1. Qed.
 
 Theorem distribution_mask_unchanged :
-  map cm (fst (normalize_distribution R_ops key G cs)) = map cm cs.
+  map cm (fst (normalize_distribution R_ops key key G cs)) = map cm cs.
 Proof. unfold normalize_distribution. cbn [fst]. fold mu sd. rewrite apply_stats_eq.
   rewrite map_imap, (map_as_imap cm cs 0). apply imap_ext_i. apply iForall_nth. intros k c _.
   unfold norm_cell. destruct (cm c) eqn:E; cbn [cm]; congruence. Qed.
 
 Theorem unnormalize_inverse :
   (forall g, observed g -> gstd R_ops key cs g <> 0) ->
-  let r := normalize_distribution R_ops key G cs in
+  let r := normalize_distribution R_ops key key G cs in
   cfilled R_ops (unnormalize_distribution R_ops key (fst (snd r)) (snd (snd r)) (fst r)) = cfilled R_ops cs.
 Proof. intros Hsd r. unfold r, normalize_distribution. cbn [fst snd]. fold mu sd. rewrite apply_stats_eq.
   unfold unnormalize_distribution, cfilled. rewrite imap_imap, map_imap, (map_as_imap _ cs 0).
@@ -118,3 +118,29 @@ Proof. intros Hsd r. unfold r, normalize_distribution. cbn [fst snd]. fold mu sd
   { unfold observed. pose proof (gvals_in cs 0 k _ Hk eq_refl) as Hin. cbn [Nat.add] in Hin. intros E. rewrite E in Hin. destruct Hin. }
   specialize (Hsd _ Ho). rsimp. field. exact Hsd. Qed.
 End Key.
+
+(* ---------- axis tuples that are not a leading block: REFUTED ----------
+   shape (2, 2, 1, 1), axis = (1,): the statistics have shape (2, 1, 1) = one entry per frame, but broadcasting
+   right-aligns them with the (people, points, dims) axes, so cell (f, p) meets the statistics of frame p. *)
+Definition nl_g (i : nat) : nat := Nat.div i 2.       (* group = frame *)
+Definition nl_b (i : nat) : nat := Nat.modulo i 2.    (* statistics entry met by broadcasting = person index *)
+Definition nl_cells : list rcell :=
+  [@mkcell R_ops false 0; @mkcell R_ops false 2; @mkcell R_ops false 10; @mkcell R_ops false 14].
+Lemma nl_std_pos g : (g < 2)%nat -> 0 < gstd R_ops nl_g nl_cells g.
+Proof. intros Hg. destruct g as [|[|g]]; [| |lia];
+  unfold gstd, gmean, gvals, nl_cells, nl_g; cbn -[Rplus Rmult Rminus Rdiv R_sqrt.sqrt IZR]; apply sqrt_lt_R0; lra. Qed.
+Theorem distribution_nonleading_refuted :
+  (forall g, (g < 2)%nat -> observed nl_g nl_cells g /\ gstd R_ops nl_g nl_cells g <> 0) /\
+  gmean R_ops nl_g (fst (normalize_distribution R_ops nl_g nl_b 2 nl_cells)) 0 <> 0.
+Proof. split.
+  - intros g Hg. split; [destruct g as [|[|g]]; [discriminate|discriminate|lia]|]. pose proof (nl_std_pos g Hg). lra.
+  - pose proof (nl_std_pos 0 ltac:(lia)) as H0. pose proof (nl_std_pos 1 ltac:(lia)) as H1.
+    set (s0 := gstd R_ops nl_g nl_cells 0) in *. set (s1 := gstd R_ops nl_g nl_cells 1) in *.
+    assert (E : gmean R_ops nl_g (fst (normalize_distribution R_ops nl_g nl_b 2 nl_cells)) 0
+                = ((0 - (0 + (2 + 0)) / 2) / s0 + ((2 - (10 + (14 + 0)) / 2) / s1 + 0)) / 2).
+    { unfold s0, s1. unfold normalize_distribution, stats, apply_stats, stat, gmean, gcount, nl_cells, nl_g, nl_b.
+      cbn -[Rplus Rmult Rminus Rdiv R_sqrt.sqrt IZR gstd]. reflexivity. }
+    rewrite E. clearbody s0 s1. apply Rlt_not_eq.
+    assert (I0 : 0 < / s0) by (apply Rinv_0_lt_compat; exact H0).
+    assert (I1 : 0 < / s1) by (apply Rinv_0_lt_compat; exact H1).
+    unfold Rdiv. lra. Qed.
